@@ -108,6 +108,9 @@ template <class Db> void run(const Args& a, Counters& c) {
 int main(int argc, char** argv) {
   Args a = parse_args(argc, argv);
   Counters c;
+#ifdef VERIF_GEN_NS
+  if (a.get("db") == "gen") { run<GenDb>(a, c); done(c); return 0; }
+#endif
   if (a.get("db") == "zonedb") run<BasicDb>(a, c); else run<ExtDb>(a, c);
   done(c);
   return 0;
